@@ -1,5 +1,75 @@
-From Ctg Require Import Base Net Einsum Program Arrays BaseFacts NetFacts SumOver TreeEval.
+(* C01 -- contracting with any tree gives the einsum value, in the declared axis order.
+   Statements only; proofs are `exact <lemma>` (Proofs/TreeEval.v, Proofs/ProgramFacts.v).
+
+   Model: Model/Net.v (legs/involved), Model/Einsum.v (einsum_spec = iterated finite sum of
+   the product of the input entries over all assignments of the non-output indices; a
+   repeated index within a term is a diagonal because the same assignment is used),
+   Model/Program.v (get_inds, recipes, extract_contractions, positional semantics of
+   numpy.einsum with explicit output, slice_arrays).  The model is compared with
+   cotengra/core.py + contract.py by harness/props/c01.py on every run.
+
+   Quantification: every network (any number of tensors, hyper indices, repeated indices,
+   scalars, outer products, disconnected parts, size-1 or size-0 dimensions), every binary
+   tree whose leaves are a permutation of 0..N-1, every set of removed (sliced/projected)
+   indices with the removed indices fixed by e0, every family of input arrays.
+   wf_net: the declared output has no duplicate and consists of indices of the inputs. *)
+From Ctg Require Import Base Net Einsum Program BaseFacts NetFacts SumOver TreeEval ProgramFacts.
+
+(* (1) the denotational value of any complete tree is the einsum *)
 Theorem C01_tree_value_is_einsum : forall n sl arr l r, wf_net n -> full_tree n (Node l r) -> forall e,
   eval_root n sl arr (Node l r) e = einsum_spec n sl arr e.
 Proof. exact eval_root_is_einsum. Qed.
 Print Assumptions C01_tree_value_is_einsum.
+
+(* (2) every intermediate: the subtree's value is the sum over exactly the indices that
+       no longer occur outside it of the product of its leaves *)
+Theorem C01_subtree_value : forall n sl arr t, inrange n (leaves t) -> forall e,
+  evalS n sl arr t e = sum_over (dim n) (dead n sl (leaves t)) e (prodF n arr (leaves t)).
+Proof. exact evalS_is_sum. Qed.
+Print Assumptions C01_subtree_value.
+
+(* (3) per-node axis orders (get_inds) enumerate the node's legs without repetition *)
+Theorem C01_inds_enumerate_legs : forall n sl t, inrange n (leaves t) ->
+  NoDup (inds_sub n sl t) /\ forall j, In j (inds_sub n sl t) <-> In j (lkeys (sub_legs n sl t)).
+Proof. exact inds_sub_spec. Qed.
+Print Assumptions C01_inds_enumerate_legs.
+
+(* (4) the extracted positional program (einsum instructions, leaves sliced and
+       pre-processed) computes at every position the value of the subtree ... *)
+Theorem C01_program_subtree : forall n sl arr e0 t, inrange n (leaves t) ->
+  forall e, agree_removed sl e0 e ->
+  run_sub n sl arr e0 t (map e (inds_sub n sl t)) = evalS n sl arr t e.
+Proof. exact run_sub_correct. Qed.
+Print Assumptions C01_program_subtree.
+
+(* (5) ... and for the whole tree the result array, indexed by the declared output indices
+       IN THE DECLARED ORDER (minus removed ones), holds the einsum value *)
+Theorem C01_program_value_and_axis_order : forall n sl arr e0 l r,
+  wf_net n -> full_tree n (Node l r) -> forall e, agree_removed sl e0 e ->
+  run_root n sl arr e0 (Node l r) (map e (out_inds n sl)) = einsum_spec n sl arr e.
+Proof. exact run_root_correct. Qed.
+Print Assumptions C01_program_value_and_axis_order.
+
+Theorem C01_output_axes_are_declared : forall n sl,
+  out_inds n sl = filter (fun j => negb (memb j (removed sl))) (output n).
+Proof. exact out_inds_eq. Qed.
+Print Assumptions C01_output_axes_are_declared.
+
+(* non-vacuity: 'aab,bcd,cd,->da' style network with a repeated index, a hyper index
+   (c on three tensors incl. output? no: d), a scalar and an outer product *)
+Local Open Scope nat_scope.
+Example C01_nonvacuous :
+  let n := mkNet [[0;0;1]; [1;2;3]; [2;3]; []] [3;0] [(0,2%Z);(1,2%Z);(2,2%Z);(3,2%Z)] in
+  let t := Node (Node (Leaf 0) (Leaf 3)) (Node (Leaf 1) (Leaf 2)) in
+  wf_net n /\ full_tree n t.
+Proof.
+  cbn zeta. split.
+  - split; [repeat constructor; cbn; intuition discriminate|].
+    intros j Hj. cbn in *. intuition.
+  - unfold full_tree. cbn. apply Permutation.Permutation_sym.
+    apply (Permutation.perm_trans (l' := [0;3;1;2])); [|apply Permutation.Permutation_refl].
+    apply Permutation.perm_skip.
+    apply (Permutation.perm_trans (l' := [1;3;2])).
+    + apply Permutation.perm_skip, Permutation.perm_swap.
+    + apply (Permutation.perm_trans (l' := [3;1;2])); [apply Permutation.perm_swap|apply Permutation.Permutation_refl].
+Qed.
